@@ -67,7 +67,7 @@ def _dy(rng, lo, hi, bits=3):
 
 
 def gen_spec(rng, idx=0, big=False, n_src=None, n_rec=None, n_freq=None,
-             mapping=None, aniso=None):
+             mapping=None, aniso=None, max_pairs=4):
     """A JSON-able description of a tiny survey/model (without observed data)."""
     if big:
         shape = [rng.choice([4, 5, 6]) for _ in range(3)]
@@ -108,6 +108,8 @@ def gen_spec(rng, idx=0, big=False, n_src=None, n_rec=None, n_freq=None,
     n_src = n_src or rng.choice([1, 2, 2])
     n_rec = n_rec or rng.choice([2, 3, 4])
     n_freq = n_freq or rng.choice([1, 2])
+    if n_src * n_freq > max_pairs:
+        n_freq = max(1, max_pairs // n_src)
     kinds = ['edip_point', 'edip_finite', 'ewire', 'mdip', 'epoint', 'mpoint']
     sources = []
     for k in range(n_src):
@@ -124,11 +126,32 @@ def gen_spec(rng, idx=0, big=False, n_src=None, n_rec=None, n_freq=None,
         else:
             pts = [[c[i] + float(rng.uniform(-40, 40)) for i in range(3)] for _ in range(3)]
             sources.append({'kind': kind, 'coo': pts, 'strength': 1.0})
+    centres = [np.asarray(s_.center, float) for s_ in _mk_sources({'sources': sources})]
+
+    def inside_for_all_sources(pt):
+        # a relative receiver moves with the source centre: keep it in the
+        # interior (second to second-last cell, with a margin) for every source
+        for c_ in centres:
+            q = np.asarray(pt[:3]) - centres[0] + c_
+            for d in range(3):
+                lo, hi = nodes[d][1], nodes[d][-2]
+                if not (lo + 0.05 * (hi - lo) <= q[d] <= hi - 0.05 * (hi - lo)):
+                    return False
+        return True
+
     receivers = []
     for k in range(n_rec):
         kind = 'm' if (idx + k) % 3 == 1 else 'e'
         rel = bool((idx + k) % 4 == 2)
-        receivers.append({'kind': kind, 'abs': inner_point(0.1) + angles(), 'relative': rel})
+        pt = inner_point(0.1)
+        if rel:
+            for _ in range(30):
+                if inside_for_all_sources(pt):
+                    break
+                pt = inner_point(0.25)
+            else:
+                rel = False
+        receivers.append({'kind': kind, 'abs': pt + angles(), 'relative': rel})
     freqs = sorted({float(rng.choice([0.5, 1.0, 2.0, 4.0])) for _ in range(n_freq)})
     noise_mode = ['scalar', 'array_nf', 'array_re', 'std', 'nf_only', 're_only'][idx % 6]
     return {'hx': hs[0], 'hy': hs[1], 'hz': hs[2], 'origin': origin, 'mapping': mapping,
